@@ -166,7 +166,7 @@ def harness_lines(args, timeout=3000):
 
 
 def drive(req_text, timeout=3000):
-    rc, out, err = sh([DRIVER], inp=req_text, timeout=timeout, big_stack=True)
+    rc, out, err = sh([DRIVER, os.path.join(REPO, "data", "stdlib_complete.txt")], inp=req_text, timeout=timeout, big_stack=True)
     if rc != 0:
         raise RuntimeError("driver failed rc=%s: %s" % (rc, err[-300:]))
     return out.split("\n")
@@ -199,6 +199,21 @@ def run_trace(cases, seed, profile, unsafe_sel):
     if len(outs) != len(reqs):
         raise RuntimeError("driver answered %d of %d trace requests" % (len(outs), len(reqs)))
     return list(zip(reqs, outs))
+
+
+def run_lines(cmd, args, prefix, timeout=3000):
+    """harness subcommand -> driver; returns list of (request_line, driver_line)"""
+    req = harness_lines([cmd] + args, timeout=timeout)
+    reqs = [l for l in req.split("\n") if l.startswith(prefix + " ")]
+    outs = [l for l in drive(req, timeout=timeout) if l.startswith(prefix + " ")]
+    if len(outs) != len(reqs):
+        raise RuntimeError("driver answered %d of %d %s requests" % (len(outs), len(reqs), prefix))
+    return list(zip(reqs, outs))
+
+
+def run_hist(cases, seed, maxlen):
+    req = harness_lines(["hist", "--cases", str(cases), "--seed", str(seed), "--maxlen", str(maxlen)])
+    return [l for l in req.split("\n") if l.startswith("hist ")]
 
 
 def run_probe(depth, deep=0):
@@ -284,43 +299,47 @@ def known_findings():
 
 
 # --------------------------------------------------------------------------- property table
-# which driver verdict key decides the property on an output, which entropy/unsafe selection
-# the property quantifies over, which correspondence streams its theorems rest on, and which
-# S1 mismatch categories concern it (None = all).
+# key     : driver verdict key that decides the property on one output (oracle), if any
+# unsafe  : which unsafe_mutations selection the property quantifies over
+# streams : correspondence / oracle streams the property's theorems rest on
+# s1      : regex selecting the S1 mismatch categories that concern the property (None = all)
+# ns      : theorem namespaces counted as this property's obligations
 PROPS = {
-    "C01": dict(key="C01", unsafe="0", streams=("S1", "S2"), s1=None, ns=["C01", "C17", "Tables"],
-                title="stack discipline"),
-    "C02": dict(key="C02", unsafe="0", streams=("S1", "S2"), s1=None, ns=["C02", "C17", "Tables"],
-                title="memo discipline", profiles_extra=("memo",)),
-    "C03": dict(key="C03", unsafe="0", streams=("S1", "S2"), s1=None, ns=["C03", "C17", "Tables"],
-                title="typed operands"),
-    "C04": dict(key="C04", unsafe="mix", streams=("S2",), s1=r"^$", ns=["C04", "Tables"],
-                title="well-formed opcode stream"),
-    "C05": dict(key="C05", unsafe="0", streams=("S1", "S2"), s1=r"cleanup|valid_opcodes", ns=["C05", "Tables"],
-                title="protocol compliance and header"),
-    "C06": dict(key="C06", unsafe="mix", streams=("S2",), s1=r"^$", ns=["C06"],
-                title="FRAME"),
+    "C01": dict(key="C01", unsafe="0", streams=("S1", "S2"), s1=None, ns=["C01", "C17", "Tables"], big=True),
+    "C02": dict(key="C02", unsafe="0", streams=("S1", "S2"), s1=None, ns=["C02", "C17", "Tables"], big=True),
+    "C03": dict(key="C03", unsafe="0", streams=("S1", "S2"), s1=None, ns=["C03", "C17", "Tables"]),
+    "C04": dict(key="C04", unsafe="mix", streams=("S2", "S3"), s1=r"^$", ns=["C04", "Tables"], big=True),
+    "C05": dict(key="C05", unsafe="0", streams=("S1", "S2"), s1=r"cleanup|valid_opcodes", ns=["C05", "Tables"], big=True),
+    "C06": dict(key="C06", unsafe="mix", streams=("S2", "S3"), s1=r"^$", ns=["C06"], big=True),
+    "C08": dict(key=None, unsafe="mix", streams=("S6", "S3"), s1=r"^$", ns=["C08"]),
+    "C09": dict(key="gen", unsafe="mix", streams=("S3", "S4", "S5"), s1=r"^$", ns=["C09", "C18", "Tables"], big=True),
     "C10": dict(key="C10", unsafe="mix", streams=("S1", "S2"), s1=r"can_emit:(Ext|NextBuffer|ReadOnlyBuffer)|valid_opcodes",
-                ns=["C10", "Tables"], title="opt-in opcodes"),
-    "C11": dict(key="C11", unsafe="mix", streams=("S1", "S2"), s1=r"cleanup", ns=["C11"],
-                title="opcode-count knobs"),
-    "C17": dict(key=None, unsafe="0", streams=("S1", "S2"), s1=None, ns=["C17", "Tables"],
-                title="simulation mirrors the reference machine"),
+                ns=["C10", "Tables"]),
+    "C11": dict(key="C11", unsafe="mix", streams=("S1", "S2", "S3"), s1=r"cleanup", ns=["C11"], big=True),
+    "C15": dict(key=None, unsafe="mix", streams=("S4", "S3", "S2r0"), s1=r"^$", ns=["C15"]),
+    "C16": dict(key=None, unsafe="mix", streams=("S4",), s1=r"^$", ns=["C16", "Tables"]),
+    "C17": dict(key=None, unsafe="0", streams=("S1", "S2"), s1=None, ns=["C17", "Tables"]),
+    "C18": dict(key=None, unsafe="mix", streams=("S5",), s1=r"^$", ns=["C18", "Tables"]),
 }
 
 TIERS = {
-    "quick": dict(oracle=dict(default=1500, small=1500, mid=60, memo=6), trace=dict(default=400, small=600, memo=3),
-                  probe_depth=2, probe_deep=0),
-    "thorough": dict(oracle=dict(default=30000, small=30000, mid=1500, memo=120), trace=dict(default=8000, small=8000, memo=40),
-                     probe_depth=3, probe_deep=5),
+    "quick": dict(oracle=dict(default=1500, small=1500, mid=60, memo=6, big=2), trace=dict(default=400, small=600, memo=3),
+                  probe_depth=2, probe_deep=0, gen=dict(default=1200, small=800), gen_exhaustive=1, mut=4000, src=1500,
+                  src_exhaustive2=False, hist=1200, hist_len=4),
+    "thorough": dict(oracle=dict(default=30000, small=30000, mid=1500, memo=120, big=24, large=2),
+                     trace=dict(default=8000, small=8000, memo=40),
+                     probe_depth=3, probe_deep=5, gen=dict(default=20000, small=12000, mid=300), gen_exhaustive=2, mut=120000,
+                     src=40000, src_exhaustive2=True, hist=20000, hist_len=8),
 }
 
 
 def nontrivial_rule(prop):
     return {
         "C02": "distinct outputs (sha256) that contain at least one PUT-family opcode",
-        "C06": "distinct outputs (sha256) for protocol >= 4",
-        "C10": "distinct outputs (sha256)",
+        "C08": "distinct call histories of length >= 2",
+        "C15": "distinct mutator calls at rate 0.0 or 1.0",
+        "C16": "distinct mutator calls in which the mutator fired",
+        "C18": "distinct (method, arguments, entropy state) draws",
     }.get(prop, "distinct outputs (sha256) with at least 3 decoded opcodes")
 
 
@@ -332,15 +351,263 @@ def is_nontrivial(prop, v):
     return int(v.get("n", "0")) >= 3
 
 
+class Ctx:
+    def __init__(self, prop, tier, seed):
+        self.prop, self.tier, self.seed = prop, tier, seed
+        self.P, self.T = PROPS[prop], TIERS[tier]
+        self.failing = []        # (stream, request/case line, detail) — concrete inputs on which the property fails
+        self.corr = []           # dict(stream, count, first, ...) — model/implementation disagreements
+        self.cov = dict(evaluations=0, distinct_nontrivial=0, samples=[], traces_validated_against_impl=0,
+                        disagreements_checked=0, impl_vs_oracle_failures=0, model_vs_impl_disagreements=0)
+        self.hist = {}
+        self.seen = set()
+
+    def bump(self, k, n=1):
+        self.hist[k] = self.hist.get(k, 0) + n
+
+    def sample(self, x):
+        if len(self.cov["samples"]) < 3:
+            self.cov["samples"].append(x)
+
+
+def stream_oracle(cx, profiles=None, mult=1, stop_on_first=False):
+    P, T = cx.P, cx.T
+    key = P["key"]
+    if not key:
+        return
+    profs = dict(T["oracle"]) if profiles is None else {k: T["oracle"].get(k, 50) for k in profiles}
+    if not P.get("big"):
+        profs.pop("big", None); profs.pop("large", None)
+    for prof, n in profs.items():
+        if prof == "memo" and cx.prop not in ("C01", "C02", "C04", "C09", "C11"):
+            n = max(1, n // 3)
+        for (req, v) in run_oracle(n * mult, cx.seed * 1000003 + sum(map(ord, prof)) + (17 if mult > 1 else 0), prof, P["unsafe"]):
+            cx.cov["evaluations"] += 1
+            r = toks(req)
+            cx.bump("P%s/%s/%s" % (r.get("P"), "rand" if r.get("mode", "").startswith("rand") else "arb", prof))
+            if r.get("warm", "0") != "0":
+                cx.bump("reused-generator")
+            if v.get("gen") != "ok":
+                cx.bump("gen-failed")
+                if key == "gen":
+                    cx.failing.append(("oracle", case_of(req), "generation_did_not_return_a_pickle:" + v.get("gen", "?")))
+                continue
+            if key == "gen":
+                if int(v.get("len", "0")) == 0:
+                    cx.failing.append(("oracle", case_of(req), "empty_output"))
+            d = hashlib.sha256(r.get("result", "").encode()).hexdigest()
+            if is_nontrivial(cx.prop, v):
+                cx.seen.add(d)
+                cx.sample(dict(case=case_of(req), decoded_opcodes=int(v.get("n", 0)), verdict=v.get(key, "ok")))
+            if key != "gen" and v.get(key, "").startswith("FAIL"):
+                cx.failing.append(("oracle", case_of(req), v[key]))
+                if stop_on_first:
+                    return
+    cx.cov["distinct_nontrivial"] = len(cx.seen)
+
+
+def stream_s1(cx):
+    n, mism = run_probe(cx.T["probe_depth"], cx.T["probe_deep"])
+    cx.cov["s1_states"] = n
+    cx.cov["disagreements_checked"] += n
+    rel = [m for m in mism if cx.P["s1"] is None or re.search(cx.P["s1"], m.split("::", 1)[-1])]
+    if rel:
+        cx.corr.append(dict(stream="S1", count=len(rel), first=rel[0][:1500]))
+
+
+def stream_s2(cx, rate0_only=False):
+    ok = 0
+    bad = []
+    for prof, n in cx.T["trace"].items():
+        for (req, out) in run_trace(n, cx.seed * 7919 + 13, prof, "0" if cx.P["unsafe"] == "0" else "mix"):
+            r = toks(req)
+            cx.cov["disagreements_checked"] += 1
+            # C15 at generation level: rate 0.0 => no value mutated, nothing rewritten
+            if cx.prop == "C15" and r.get("rate") == "0000000000000000":
+                cx.cov["evaluations"] += 1
+                if int(r.get("mutated", "0")) > 0 or int(r.get("rewritten", "0")) > 0:
+                    cx.failing.append(("S2", case_of(req), "rate_0.0_but_mutated=%s_rewritten=%s" % (r.get("mutated"), r.get("rewritten"))))
+            if rate0_only:
+                continue
+            if " ok " in out:
+                ok += 1
+            elif " FAIL " in out:
+                det = out.split(" FAIL ", 1)[1]
+                if cx.prop == "C17" and det.startswith("C17-direct"):
+                    cx.failing.append(("S2", case_of(req), det[:400]))
+                elif cx.prop == "C11" and re.match(r"(body_emitted|tail_\d+_>|target_\d+_outside)", det):
+                    cx.failing.append(("S2", case_of(req), det[:400]))
+                else:
+                    bad.append((case_of(req), out))
+    cx.cov["traces_validated_against_impl"] += ok
+    if bad:
+        cx.corr.append(dict(stream="S2", count=len(bad), first=bad[0][1][:1500], case=bad[0][0]))
+        # a disagreeing run is the first place to look for a concrete failing input
+        key = cx.P["key"]
+        if key and key != "gen":
+            for cl, _ in bad[:12]:
+                try:
+                    _, v = rerun_case(cl)
+                except Exception:
+                    continue
+                cx.cov["evaluations"] += 1
+                if v.get(key, "").startswith("FAIL"):
+                    cx.failing.append(("oracle", cl, v[key]))
+                    break
+
+
+def stream_s3(cx):
+    ok = 0
+    bad = []
+    jobs = [(["--cases", str(n), "--seed", str(cx.seed * 131 + 7), "--profile", prof, "--unsafe", "mix"]) for prof, n in cx.T["gen"].items()]
+    jobs.append(["--exhaustive", str(cx.T["gen_exhaustive"])])
+    for args in jobs:
+        for (req, out) in run_lines("gen", args, "gen", timeout=6000):
+            cx.cov["disagreements_checked"] += 1
+            r = toks(req)
+            if cx.prop == "C09":
+                cx.cov["evaluations"] += 1
+                if not r.get("result", "").startswith("ok:") or r.get("result") == "ok:":
+                    cx.failing.append(("S3", case_of(req), "generation_did_not_return_a_pickle:" + r.get("result", "?")[:120]))
+                else:
+                    cx.seen.add(hashlib.sha256(r["result"].encode()).hexdigest())
+            if " ok " in out or out.endswith(" ok"):
+                ok += 1
+                o = toks(out)
+                if cx.prop == "C11" and o.get("tbounds") == "0":
+                    cx.failing.append(("S3", case_of(req), "target_%s_outside_bounds" % o.get("target")))
+                if cx.prop in ("C09", "C11", "C08") and len(cx.cov["samples"]) < 3:
+                    cx.sample(dict(case=case_of(req)[:200], model_equals_impl=True, target=o.get("target"), decoded=o.get("n")))
+            elif " FAIL " in out:
+                bad.append((case_of(req), out))
+    cx.cov["gen_exact_agreements"] = ok
+    cx.cov["traces_validated_against_impl"] += ok
+    if cx.prop == "C09":
+        cx.cov["distinct_nontrivial"] = max(cx.cov["distinct_nontrivial"], len(cx.seen))
+    if bad:
+        cx.corr.append(dict(stream="S3", count=len(bad), first=bad[0][1][:1500], case=bad[0][0][:600]))
+
+
+def stream_s4(cx):
+    tag = {"C15": "C15:", "C16": "C16:"}.get(cx.prop)
+    ok = 0
+    bad = []
+    fired = set()
+    for (req, out) in run_lines("mut", ["--cases", str(cx.T["mut"]), "--seed", str(cx.seed * 17 + 3)], "mut", timeout=6000):
+        cx.cov["evaluations"] += 1
+        r = toks(req)
+        cx.bump("%s/%s/%s" % (r.get("kind"), r.get("method"), "rand" if r.get("ent", "").startswith("rand") else "arb"))
+        extreme = r.get("rate") in ("0000000000000000", "3ff0000000000000")
+        did_fire = not (r.get("result") == "none" or r.get("result", "").startswith("same"))
+        if (cx.prop == "C15" and extreme) or (cx.prop == "C16" and did_fire) or cx.prop == "C09":
+            fired.add(hashlib.sha256(case_of(req).encode()).hexdigest())
+            if did_fire or cx.prop != "C16":
+                cx.sample(dict(call=case_of(req)[:300], result=r.get("result", "")[:80]))
+        if out.startswith("mut ok"):
+            ok += 1
+            continue
+        det = out.split(" FAIL ", 1)[-1]
+        last = det.split(" ")[-1]
+        if "result=panic" in req or last.startswith("panic"):
+            if cx.prop in ("C16", "C09"):
+                cx.failing.append(("S4", case_of(req), "mutator_panicked"))
+        elif tag and last.startswith(tag):
+            cx.failing.append(("S4", case_of(req), last[:300]))
+        elif last.startswith("C15:") or last.startswith("C16:"):
+            pass        # another property's finding
+        else:
+            bad.append((case_of(req), out))
+    cx.cov["traces_validated_against_impl"] += ok
+    if cx.prop in ("C15", "C16"):
+        cx.cov["distinct_nontrivial"] = len(fired)
+    if bad:
+        cx.corr.append(dict(stream="S4", count=len(bad), first=bad[0][1][:1200]))
+
+
+def stream_s5(cx):
+    ok = 0
+    bad = []
+    seen = set()
+    args = ["--cases", str(cx.T["src"]), "--seed", str(cx.seed * 19 + 5)] + (["--exhaustive2"] if cx.T["src_exhaustive2"] else [])
+    for (req, out) in run_lines("src", args, "src", timeout=6000):
+        cx.cov["evaluations"] += 1
+        r = toks(req)
+        cx.bump("%s/%s" % (r.get("method"), "rand" if r.get("ent", "").startswith("rand") else "arb"))
+        seen.add(case_of(req))
+        if len(cx.cov["samples"]) < 3 and r.get("method") in ("choose_index", "gen_range") and r.get("ent", "").startswith("arb:") and len(r["ent"]) > 8:
+            cx.sample(dict(draw=case_of(req)[:200], result=r.get("result")))
+        if out.startswith("src ok"):
+            ok += 1
+            continue
+        det = out.split(" ")[-1]
+        if "result=panic" in req:
+            if cx.prop in ("C18", "C09"):
+                cx.failing.append(("S5", case_of(req), "entropy_adapter_panicked"))
+        elif det.startswith("contract:"):
+            if cx.prop == "C18":
+                cx.failing.append(("S5", case_of(req), det[:300]))
+        else:
+            bad.append((case_of(req), out))
+    cx.cov["traces_validated_against_impl"] += ok
+    if cx.prop == "C18":
+        cx.cov["distinct_nontrivial"] = len(seen)
+        cx.cov["exhaustive"] = False
+    if bad:
+        cx.corr.append(dict(stream="S5", count=len(bad), first=bad[0][1][:1200]))
+
+
+def stream_s6(cx):
+    seen = set()
+    for l in run_hist(cx.T["hist"], cx.seed * 23 + 1, cx.T["hist_len"]):
+        cx.cov["evaluations"] += 1
+        r = toks(l)
+        calls = r.get("calls", "")
+        if calls.count(",") >= 1:
+            seen.add(hashlib.sha256((case_of(l) + calls).encode()).hexdigest())
+            cx.sample(dict(history=calls[:160], config=case_of(l)[:160], verdict=r.get("verdict")))
+        cx.bump("history-length-%d" % (calls.count(",") + 1))
+        if r.get("verdict") != "ok":
+            cx.failing.append(("S6", case_of(l) + " calls=" + calls, "result_depends_on_earlier_calls:" + " ".join(l.split(" verdict=FAIL")[-1].split()[:2])))
+    cx.cov["distinct_nontrivial"] = len(seen)
+
+
+STREAMS = {"S1": stream_s1, "S2": stream_s2, "S3": stream_s3, "S4": stream_s4, "S5": stream_s5, "S6": stream_s6,
+           "S2r0": lambda cx: stream_s2(cx, rate0_only=True)}
+
+
+def rerun_any(stream, line):
+    """re-run a recorded failing request of any stream; returns (request_line, still_fails, detail)"""
+    if stream == "oracle":
+        req, v = rerun_case(line)
+        return req, v
+    if stream == "S2":
+        req = harness_lines(["case", "--trace"] + line.split(" "))
+        out = [l for l in drive(req) if l.startswith("trace ")]
+        return req.strip(), out[0] if out else ""
+    if stream == "S3":
+        req = harness_lines(["case"] + line.split(" "))
+        return req.strip(), req.strip()
+    if stream == "S4":
+        req = harness_lines(["mut", "--replay"] + line.split(" "))
+        out = [l for l in drive(req) if l.startswith("mut ")]
+        return req.strip(), out[0] if out else ""
+    if stream == "S5":
+        req = harness_lines(["src", "--replay"] + line.split(" "))
+        out = [l for l in drive(req) if l.startswith("src ")]
+        return req.strip(), out[0] if out else ""
+    if stream == "S6":
+        req = harness_lines(["hist", "--case"] + line.split(" "))
+        return req.strip(), req.strip()
+    return "", ""
+
+
 def check_property(prop, tier, seed):
     t0 = time.time()
-    P = PROPS[prop]
-    T = TIERS[tier]
+    cx = Ctx(prop, tier, seed)
+    P, T, cov = cx.P, cx.T, cx.cov
     violations = []        # (replay_path, suffix)
     known_lines = []
     notes = []
-    cov = dict(evaluations=0, distinct_nontrivial=0, samples=[], traces_validated_against_impl=0,
-               disagreements_checked=0, impl_vs_oracle_failures=0, model_vs_impl_disagreements=0)
     with Lock():
         lean = build_lean()
         har = build_harness()
@@ -351,9 +618,8 @@ def check_property(prop, tier, seed):
     shared = ("PFV.Run.pre", "PFV.run_accepted", "PFV.header_steps", "PFV.srel_init")
     thms = {t: ax for t, ax in lean["axioms"].items()
             if any(t.startswith("PFV.%s." % n) for n in P["ns"]) or t in shared}
-    broken = [b for b in lean["broken"]]
-    cov["obligations"] = len(thms) + len(broken)
-    cov["discharged"] = len(thms) if lean["ok"] else max(0, len(thms) - len(broken))
+    cov["obligations"] = len(thms) + len(lean["broken"])
+    cov["discharged"] = len(thms)
     cov["checker_cmd"] = "cd /verif/lean && lake build PFV pfv-driver && lake env lean PFV/Audit.lean"
     cov["theorems"] = sorted(thms)
     cov["axioms_used"] = sorted({a for ax in thms.values() for a in ax})
@@ -364,108 +630,74 @@ def check_property(prop, tier, seed):
         violations.append((p, " no-failing-input-found"))
         return finish(prop, tier, seed, t0, cov, violations, known_lines, notes)
 
-    failing = []          # (case_line, detail)
-    hist = {}
-    seen = set()
     # ---- corpus of past minimised failures first
     cpath = os.path.join(CORPUS, "%s.cases" % prop)
-    if os.path.exists(cpath) and P["key"]:
+    if os.path.exists(cpath):
         for cl in open(cpath):
             cl = cl.strip()
             if not cl or cl.startswith("#"):
                 continue
-            _, v = rerun_case(cl)
+            stream, line = cl.split(" ", 1)
             cov["evaluations"] += 1
-            if v.get(P["key"], "").startswith("FAIL"):
-                failing.append((cl, v[P["key"]]))
-    # ---- oracle on implementation outputs
-    if P["key"]:
-        for prof, n in T["oracle"].items():
-            if prof == "memo" and prop not in ("C01", "C02", "C04", "C09", "C11"):
-                n = max(1, n // 3)
-            for (req, v) in run_oracle(n, seed * 1000003 + sum(map(ord, prof)), prof, P["unsafe"]):
-                cov["evaluations"] += 1
-                r = toks(req)
-                hk = "P%s/%s/%s" % (r.get("P"), "rand" if r.get("mode", "").startswith("rand") else "arb", prof)
-                hist[hk] = hist.get(hk, 0) + 1
-                if v.get("gen") != "ok":
-                    hist["gen-failed"] = hist.get("gen-failed", 0) + 1
-                    continue
-                d = hashlib.sha256(r.get("result", "").encode()).hexdigest()
-                if d not in seen and is_nontrivial(prop, v):
-                    seen.add(d)
-                if len(cov["samples"]) < 3 and is_nontrivial(prop, v):
-                    cov["samples"].append(dict(case=case_of(req), decoded_opcodes=int(v.get("n", 0)), verdict=v.get(P["key"])))
-                if v.get(P["key"], "").startswith("FAIL"):
-                    failing.append((case_of(req), v[P["key"]]))
-        cov["distinct_nontrivial"] = len(seen)
-        cov["input_distribution"] = hist
-    cov["impl_vs_oracle_failures"] = len(failing)
+            try:
+                if stream == "oracle" and P["key"] and P["key"] != "gen":
+                    _, v = rerun_case(line)
+                    if v.get(P["key"], "").startswith("FAIL"):
+                        cx.failing.append(("oracle", line, v[P["key"]]))
+                elif stream == "S6":
+                    req, _ = rerun_any("S6", line)
+                    if "verdict=FAIL" in req:
+                        cx.failing.append(("S6", line, "result_depends_on_earlier_calls"))
+                elif stream in ("S4", "S5"):
+                    req, out = rerun_any(stream, line)
+                    if " FAIL " in out and (prop + ":") in out or "result=panic" in req:
+                        cx.failing.append((stream, line, out.split(" ")[-1][:200]))
+            except Exception as e:
+                notes.append("corpus entry could not be re-run: %s (%s)" % (cl[:80], e))
 
-    # ---- correspondence streams
-    corr_broken = []
-    if "S1" in P["streams"]:
-        n, mism = run_probe(T["probe_depth"], T["probe_deep"])
-        cov["s1_states"] = n
-        rel = [m for m in mism if P["s1"] is None or re.search(P["s1"], m.split("::", 1)[-1])]
-        cov["disagreements_checked"] += n
-        if rel:
-            corr_broken.append(dict(stream="S1", count=len(rel), first=rel[0][:1500]))
-    if "S2" in P["streams"]:
-        ok = 0
-        bad = []
-        for prof, n in T["trace"].items():
-            for (req, out) in run_trace(n, seed * 7919 + 13, prof, "0" if P["unsafe"] == "0" else "mix"):
-                if " ok " in out:
-                    ok += 1
-                elif " FAIL " in out:
-                    bad.append((case_of(req), out))
-        cov["traces_validated_against_impl"] = ok
-        if bad:
-            corr_broken.append(dict(stream="S2", count=len(bad), first=bad[0][1][:1500], case=bad[0][0]))
-    cov["model_vs_impl_disagreements"] = sum(c["count"] for c in corr_broken)
+    # ---- oracle on implementation outputs, then the correspondence streams
+    stream_oracle(cx)
+    for st in P["streams"]:
+        STREAMS[st](cx)
+    cov["input_distribution"] = cx.hist
+    cov["impl_vs_oracle_failures"] = len(cx.failing)
+    cov["model_vs_impl_disagreements"] = sum(c["count"] for c in cx.corr)
 
     # ---- verdict
-    if failing:
-        # group by detail class, report the first of each class (minimised)
+    if cx.failing:
         classes = {}
-        for cl, det in failing:
+        for stream, cl, det in cx.failing:
             k = re.sub(r"instr#\d+", "instr#N", det)
-            k = re.sub(r"count=\d+|total=\d+|\(-?\d+\)|_\d+", "", k)
-            classes.setdefault(k, (cl, det))
-        for k, (cl, det) in list(classes.items())[:4]:
-            mcl = minimise(cl, P["key"]) if tier == "quick" or True else cl
-            _, v = rerun_case(mcl)
-            p = write_replay(prop, "failing-input", dict(case=mcl, observed=v.get(P["key"], det), required="%s=ok" % P["key"],
-                                                         original_case=cl))
-            tag = "input-class:" + k
-            if any(ok_ in tag for ok_ in open_keys):
-                known_lines.append("KNOWN-FINDING: property=%s %s (replay %s)" % (prop, det, p))
+            k = re.sub(r"step_\d+", "step_N", k)
+            k = re.sub(r"count=\d+|total=\d+|\(-?\d+\)|_\d+|=\d+", "", k)[:120]
+            classes.setdefault(stream + ":" + k, (stream, cl, det))
+        for k, (stream, cl, det) in list(classes.items())[:4]:
+            mcl = cl
+            if stream == "oracle" and P["key"] != "gen":
+                mcl = minimise(cl, P["key"])
+                _, v = rerun_case(mcl)
+                det = v.get(P["key"], det)
+            p = write_replay(prop, "failing-input", dict(stream=stream, case=mcl, observed=det,
+                                                         required="the property holds on this input", original_case=cl[:2000]))
+            if any(ok_ in k for ok_ in open_keys):
+                known_lines.append("KNOWN-FINDING: property=%s %s (replay %s)" % (prop, det[:200], p))
             else:
                 violations.append((p, ""))
-    elif (not lean["ok"]) or corr_broken:
+    elif (not lean["ok"]) or cx.corr:
         # no failing input from the regular budget: search harder near the disagreement before giving up
-        extra_fail = []
-        if P["key"]:
-            for prof in ("default", "small", "memo"):
-                n = T["oracle"].get(prof, 100) * (3 if tier == "quick" else 1)
-                for (req, v) in run_oracle(n, seed * 31 + 977, prof, P["unsafe"]):
-                    cov["evaluations"] += 1
-                    if v.get(P["key"], "").startswith("FAIL"):
-                        extra_fail.append((case_of(req), v[P["key"]]))
-                        break
-                if extra_fail:
-                    break
-        if extra_fail:
-            cl, det = extra_fail[0]
+        n0 = len(cx.failing)
+        if P["key"] and P["key"] != "gen":
+            stream_oracle(cx, profiles=("default", "small", "memo"), mult=3 if tier == "quick" else 1, stop_on_first=True)
+        if len(cx.failing) > n0:
+            stream, cl, det = cx.failing[n0]
             mcl = minimise(cl, P["key"])
-            p = write_replay(prop, "failing-input", dict(case=mcl, observed=det, required="%s=ok" % P["key"]))
+            p = write_replay(prop, "failing-input", dict(stream=stream, case=mcl, observed=det, required="the property holds on this input"))
             violations.append((p, ""))
         else:
             what = []
             if not lean["ok"]:
                 what.append(dict(kind="proof-obligation", broken=lean["broken"][:6], forbidden=lean["forbidden"][:6]))
-            for c in corr_broken:
+            for c in cx.corr:
                 what.append(dict(kind="correspondence", **c))
             p = write_replay(prop, "obligation", dict(no_longer_checks=what,
                              note="no input on which the property fails was found by the search; the property is no longer shown to hold"))
@@ -502,6 +734,9 @@ def finish(prop, tier, seed, t0, cov, violations, known_lines, notes):
     return 1 if violations else 0
 
 
+EXTRA = {}          # properties with their own driver function (registered below)
+
+
 def replay(path):
     body = json.load(open(path))
     prop = body["property"]
@@ -510,12 +745,21 @@ def replay(path):
         har = build_harness()
     if body["kind"] == "failing-input":
         key = PROPS[prop]["key"]
-        req, v = rerun_case(body["case"])
-        print("case:", body["case"])
-        print("verdict:", v.get(key), "(required ok)")
-        if v.get(key, "").startswith("FAIL") or v.get("gen") != "ok":
+        stream = body.get("stream", "oracle")
+        print("stream:", stream)
+        print("case:", body["case"][:600])
+        if stream == "oracle":
+            req, v = rerun_case(body["case"])
+            bad = v.get("gen") != "ok" if key == "gen" else v.get(key, "").startswith("FAIL")
+            print("verdict:", v.get(key), "(required ok)")
+        else:
+            req, out = rerun_any(stream, body["case"])
+            print("now:", out[:600])
+            bad = (" FAIL" in out) or ("verdict=FAIL" in out) or ("result=panic" in out) or ("result=err" in out)
+        if bad:
             print("VIOLATION property=%s replay=%s" % (prop, path))
             return 1
+        print("the recorded input no longer fails")
         return 0
     print(json.dumps(body, indent=1))
     print("lean build ok:", lean["ok"], "harness build ok:", har["ok"])
@@ -533,9 +777,11 @@ def main():
         sys.exit(replay(a.replay))
     if a.prop == "setup":
         sys.exit(setup())
-    if a.prop not in PROPS:
+    if a.prop not in PROPS and a.prop not in EXTRA:
         print("unknown property", a.prop, file=sys.stderr)
         sys.exit(2)
+    if a.prop in EXTRA:
+        sys.exit(EXTRA[a.prop](a.prop, a.tier if a.tier in TIERS else "quick", seed))
     sys.exit(check_property(a.prop, a.tier if a.tier in TIERS else "quick", seed))
 
 
